@@ -70,6 +70,7 @@ _CH = None          # (read fd, write fd) in a simulated child; None = pass-thro
 _LAST_KIND = [None]  # kind of the statement most recently attempted (for exception classification)
 _BYPASS = [0]        # DB-API calls that did not pass a scheduling point (reach probe)
 _PASS = [False]      # True while the child tears a run down (connections closed as at process exit)
+_PREV_FAILED = [False]   # the statement executed last raised into the code under test (reported with the next point)
 _VNOW = [0]          # the simulator's virtual clock (ms), delivered with every token
 _CLOCK_INSTALLED = [False]
 VIRTUAL_EPOCH = 1_700_000_000.0
@@ -126,6 +127,10 @@ def classify_sql(sql: str) -> str:
 COARSE_KINDS = ("count-session", "create-session", "insert-session", "commit")
 
 
+def is_write_kind(kind):
+    return kind.startswith(("insert-", "create-")) or kind in ("alter", "update", "create-index")
+
+
 class _Injected(sqlite3.OperationalError):
     pass
 
@@ -137,7 +142,8 @@ def _point(kind, sql, attempt):
     _LAST_KIND[0] = kind
     waited = 0
     n = 0
-    _send(_CH[1], ("yield", kind, sql))
+    _send(_CH[1], ("yield", kind, sql, _PREV_FAILED[0]))
+    _PREV_FAILED[0] = False
     while True:
         tok = _recv(_CH[0])
         if tok is None:
@@ -145,17 +151,23 @@ def _point(kind, sql, attempt):
         inject = tok[1]
         _VNOW[0] = tok[2]
         if inject:
+            _PREV_FAILED[0] = True
             raise sqlite3.OperationalError(inject)
         try:
             return attempt()
-        except sqlite3.OperationalError as e:
+        except sqlite3.Error as e:
+            if not isinstance(e, sqlite3.OperationalError):
+                _PREV_FAILED[0] = True      # e.g. IntegrityError: the statement failed, its transaction stays open
+                raise
             msg = str(e)
             if "locked" not in msg and "busy" not in msg:
+                _PREV_FAILED[0] = True
                 raise
             delay = BUSY_DELAYS[n] if n < len(BUSY_DELAYS) else 100
             if waited + delay > BUSY_TIMEOUT_MS:
                 delay = BUSY_TIMEOUT_MS - waited
             if delay <= 0:
+                _PREV_FAILED[0] = True
                 raise
             waited += delay
             n += 1
@@ -219,7 +231,7 @@ def install_seam():
 
 class Proc:
     __slots__ = ("idx", "pid", "w", "r", "state", "wake", "stalled_until", "results",
-                 "pending", "script", "last_kind", "steps", "lingering")
+                 "pending", "script", "last_kind", "steps", "lingering", "txn_open", "clean_hold", "injected_failure")
 
     def __init__(self, idx, pid, w, r, script):
         self.idx = idx
@@ -235,6 +247,9 @@ class Proc:
         self.last_kind = None
         self.steps = 0
         self.lingering = False
+        self.txn_open = False          # a write statement was executed and neither commit nor rollback since
+        self.clean_hold = True         # ... and nothing but that successful write happened since (the window every writer needs)
+        self.injected_failure = False  # the open transaction's failure was an injected I/O error
 
 
 class Decider:
@@ -597,6 +612,26 @@ def simulate(scripts, child_main, child_teardown, cfg, sched_rng=None, fault_rng
                 p.last_kind = executed_kind
                 if executed_kind in COARSE_KINDS:
                     res.coarse_trace.append((p.idx, executed_kind))
+            prev_failed = bool(m[3]) if tag == "yield" and len(m) > 3 else False
+            # who holds the write lock, and does it hold it only for the window every writer needs?
+            #   needed:   [successful write .. its commit]   and   [failed write .. its rollback]
+            #   needless: any other statement executed while the write transaction is open
+            if executed_kind in ("commit", "rollback", "close"):
+                if not (prev_failed or inject):
+                    p.txn_open = False
+                    p.clean_hold = True
+                    p.injected_failure = False
+                else:
+                    p.injected_failure = p.injected_failure or bool(inject)
+            elif is_write_kind(executed_kind):
+                if p.txn_open:
+                    p.clean_hold = False           # a further statement inside an already open write transaction
+                if not inject:
+                    p.txn_open = True
+                if inject:
+                    p.injected_failure = True
+            elif p.txn_open and executed_kind not in ("start",):
+                p.clean_hold = False               # reads / reflection while the write lock is held
             if tag == "yield":
                 p.pending = (m[1], m[2], "")
                 log.add(p.idx, "exec", [executed_kind, m[1]])
